@@ -46,6 +46,8 @@ func C04(o *world.Obs) *Result {
 		h := ReqHeader(ex.Req)
 		vs := Versions(o, src, ex.StartSeq)
 		mismatchAll := true
+		onlyRefusals := true
+		hashCollision := false
 		why := ""
 		anyVary := false
 		for _, v := range vs {
@@ -60,12 +62,24 @@ func C04(o *world.Obs) *Result {
 			for _, f := range fields {
 				if model.SurelyDifferent(v.Req.Values(f), h.Values(f)) {
 					mm = fmt.Sprintf("%s: stored for %q, requested with %q", f, v.Req.Values(f), h.Values(f))
+					if !(model.OnlyRefusals(v.Req.Values(f)) || model.OnlyRefusals(h.Values(f))) {
+						onlyRefusals = false
+					}
 					break
 				}
 			}
 			if mm == "" {
 				mismatchAll = false
 				break
+			}
+			if !star && len(fields) > 0 {
+				a, b := map[string]string{}, map[string]string{}
+				for _, f := range fields {
+					a[f], b[f] = strings.Join(v.Req.Values(f), ", "), strings.Join(h.Values(f), ", ")
+				}
+				if model.VariantHash(fields, a) == model.VariantHash(fields, b) {
+					hashCollision = true
+				}
 			}
 			if why == "" {
 				why = mm + " (Vary=" + strings.Join(v.Header.Values("Vary"), ",") + ")"
@@ -78,6 +92,14 @@ func C04(o *world.Obs) *Result {
 			kind := "wrong-variant"
 			if strings.Contains(why, "Vary: *") {
 				kind = "vary-star-reused"
+			} else if hashCollision {
+				// the two value sets are different but the 64-bit hash the store key is
+				// derived from is the same for both
+				kind = "wrong-variant:variant-hash-collision"
+			} else if onlyRefusals {
+				// the two requests differ in a field whose value, on one side, only refuses
+				// things (every member has q=0) and is absent on the other
+				kind = "wrong-variant:refusals-only-vs-absent"
 			}
 			r.Fail("C04", kind, ex.Idx, "stored reply s%d returned to a request of a different variant: %s; %s", src.Serial, why, SummarizeExchange(o, ex))
 		}
